@@ -13,7 +13,7 @@ FILL = 0xAA
 ASAN_LIB = "/usr/lib/x86_64-linux-gnu/libasan.so.8"
 
 
-def _run_chunk(root, cases, workdir, tag, sanitize, timeout):
+def _run_chunk(root, cases, workdir, tag, sanitize, timeout, max_crashes=40):
     """Run one chunk sequentially in a worker; restart after the case that killed the worker."""
     cp = os.path.join(workdir, "cases_%s.json" % tag)
     op = os.path.join(workdir, "out_%s.jsonl" % tag)
@@ -25,15 +25,27 @@ def _run_chunk(root, cases, workdir, tag, sanitize, timeout):
     if sanitize:
         env["LD_PRELOAD"] = ASAN_LIB
         env["ASAN_OPTIONS"] = "detect_leaks=0:abort_on_error=0:exitcode=77:allocator_may_return_null=1"
-        env["UBSAN_OPTIONS"] = "halt_on_error=1:exitcode=78:print_stacktrace=0"
+        env["UBSAN_OPTIONS"] = "halt_on_error=0:print_stacktrace=0"      # reports are attributed through the @@CASE markers
     results = {}
     start = 0
     reports = {}
     guard = 0
-    while start < len(cases) and guard < 200:
+    ub = {}
+    ncrash = 0
+    while start < len(cases) and guard < 3000:
+        if ncrash >= max_crashes:
+            for i in range(start, len(cases)):
+                results.setdefault(i, ["skipped"])
+            break
         guard += 1
         p = subprocess.run([C.PY, WORKER, root, cp, op] + (["exact"] if sanitize else ["guard"]) + [str(start)],
                            env=env, stdout=subprocess.PIPE, stderr=subprocess.PIPE, timeout=timeout)
+        cur = None
+        for line in p.stderr.decode("utf-8", "replace").split("\n"):
+            if line.startswith("@@CASE "):
+                cur = int(line[7:])
+            elif "runtime error" in line and cur is not None and cur not in ub:
+                ub[cur] = line.strip()[:300]
         done = -1
         for line in open(op):
             line = line.strip()
@@ -45,10 +57,10 @@ def _run_chunk(root, cases, workdir, tag, sanitize, timeout):
                 continue
             results[i] = r
             done = max(done, i)
-        if done + 1 >= len(cases) and p.returncode == 0:
+        if max(done + 1, start) >= len(cases) and p.returncode == 0:
             break
         # the worker died on case done+1
-        k = done + 1
+        k = max(done + 1, start)
         if k >= len(cases):
             # died at exit (e.g. sanitizer report at teardown)
             reports[len(cases) - 1] = p.stderr.decode("utf-8", "replace")[-1500:]
@@ -60,7 +72,11 @@ def _run_chunk(root, cases, workdir, tag, sanitize, timeout):
         elif "runtime error" in err:
             kind = "ubsan"
         results[k] = [kind, p.returncode, _first_report_line(err)]
+        ncrash += 1
         start = k + 1
+    for i, line in ub.items():
+        if results.get(i, ["missing"])[0] in ("ok", "exc"):
+            results[i] = ["ubsan", 0, line]
     return [results.get(i, ["missing"]) for i in range(len(cases))]
 
 
@@ -71,7 +87,7 @@ def _first_report_line(err):
     return err.strip()[-300:]
 
 
-def run_real(cases, workdir, sanitize=False, nproc=12, timeout=3000):
+def run_real(cases, workdir, sanitize=False, nproc=12, timeout=3000, max_crashes=40):
     """Results of the real code for every case: ["ok", ...] | ["exc", type, msg] | ["crash"|"asan"|"ubsan", rc, report]."""
     if not cases:
         return []
@@ -86,7 +102,7 @@ def run_real(cases, workdir, sanitize=False, nproc=12, timeout=3000):
 
     def job(kc):
         k, ch = kc
-        return k, _run_chunk(root, ch, workdir, "%s_%d" % (tagbase, k), sanitize, timeout)
+        return k, _run_chunk(root, ch, workdir, "%s_%d" % (tagbase, k), sanitize, timeout, max_crashes)
     with ThreadPoolExecutor(nproc) as ex:
         for k, res in ex.map(job, chunks):
             out[k] = res
@@ -124,7 +140,10 @@ def pq_batch(cmds, nproc=8):
 def tag(x):
     """first element of a pqref result as str ('ok', 'oob', 'ub', 'fuel', 'error')"""
     if isinstance(x, list) and x and isinstance(x[0], (bytes, bytearray)):
-        return bytes(x[0]).decode()
+        try:
+            return bytes(x[0]).decode()
+        except UnicodeDecodeError:
+            return None
     return None
 
 
@@ -136,19 +155,23 @@ def vals_to_bytes(vals, isz):
     return bytes(int(v) & 0xff for v in vals)
 
 
-def expect_outbuf(vals, isz, cap):
+def expect_outbuf(vals, isz, cap, guard=GUARD):
     """The whole output allocation (capacity + guard) the worker returns when exactly `vals` were stored."""
-    b = vals_to_bytes(vals, isz)
-    return (b + bytes([FILL]) * (cap + GUARD - len(b))).hex()
+    return expect_raw(vals_to_bytes(vals, isz), cap, guard)
 
 
-def model_decoder_view(mo, isz, cap):
+def expect_raw(b, cap, guard=GUARD):
+    b = bytes(b)[:cap + guard]
+    return (b + bytes([FILL]) * (cap + guard - len(b))).hex()
+
+
+def model_decoder_view(mo, isz, cap, guard=GUARD):
     """Canonical comparable view of a decoder result of the impl model: [outbuf_hex, in_loc, out_loc] or the tag."""
     t = tag(mo)
     if t != "ok":
         return t
     vals, used, written = mo[1], mo[2], mo[3]
-    return [expect_outbuf(vals, isz, cap), used, written]
+    return [expect_outbuf(vals, isz, cap, guard), used, written]
 
 
 def impl_decoder_view(r):
